@@ -1,7 +1,7 @@
 (* C01, simulation: the fragments are nested, and every program of the largest one is well-scoped
    (RefScope.well_scoped: the class property C01 quantifies over). *)
 From Coq Require Import List NArith ZArith Bool Arith Lia.
-From Cao Require Import CheckUtil CardAst Table RefSem RefScope StdlibGen C01SimDefs C01SimRef C01SimDefs2 C01SimDefs3 C01SimDefs4.
+From Cao Require Import CheckUtil CardAst Table RefSem RefScope StdlibGen C01SimDefs C01SimRef C01SimDefs2 C01SimDefs3 C01SimDefs4 C01SimDefs5 C01SimRef5 C01SimDefs6.
 Import ListNotations.
 
 (* ------------------------------------------------------------------ nesting *)
@@ -53,6 +53,54 @@ Proof.
   apply (forallb_impl _ _ _ top_f3_4 H2).
 Qed.
 
+Lemma stmt4_5 Ln c : stmt4 c = true -> stmt5 Ln c = true.
+Proof.
+  induction c using CompilerWf.card_ind'; cbn [stmt4 stmt5]; auto; try discriminate.
+  - destruct op; try discriminate; intros H; apply andb_true_iff in H; destruct H as [H1 H2]; rewrite H1, (IHc2 H2); reflexivity.
+  - destruct op; try discriminate. intros H. apply andb_true_iff in H. destruct H as [H H3].
+    apply andb_true_iff in H. destruct H as [H1 H2]. rewrite H1, (IHc2 H2), (IHc3 H3). reflexivity.
+  - match goal with HF : Forall _ cards |- _ => induction HF as [|x r Hx _ IHr] end; cbn [forallb]; [auto|].
+    intros H. apply andb_true_iff in H. destruct H as [H1 H2]. rewrite (Hx H1), (IHr H2). reflexivity.
+Qed.
+Lemma cards4_5 cards : forallb stmt4 cards = true -> forall Ln, cards5 Ln cards = true.
+Proof.
+  induction cards as [|c r IH]; intros H Ln; [reflexivity|]. cbn [forallb cards5] in *.
+  apply andb_true_iff in H. destruct H as [H1 H2].
+  assert (Ht : top5 Ln c = true) by (destruct c; try discriminate H1; cbn [top5]; apply stmt4_5; exact H1).
+  rewrite Ht. apply IH, H2.
+Qed.
+Lemma in_f4_f5 M : in_f4 M = true -> in_f5 M = true.
+Proof.
+  destruct M as [subs funs imps]. cbn [in_f4 in_f5]. destruct subs; [|discriminate].
+  destruct funs as [|[name f] [|]]; try discriminate. destruct imps; [|discriminate].
+  intros H. apply andb_true_iff in H. destruct H as [H1 H2]. rewrite H1. cbn [andb].
+  apply cards4_5, H2.
+Qed.
+
+Lemma stmt5_6 c : forall Ln, stmt5 Ln c = true -> stmt6 Ln c = true.
+Proof.
+  induction c using CompilerWf.card_ind'; intros Ln; cbn [stmt5 stmt6]; auto; try discriminate.
+  - destruct op; try discriminate; intros H; apply andb_true_iff in H; destruct H as [H1 H2]; rewrite H1, (IHc2 Ln H2); reflexivity.
+  - destruct op; try discriminate. intros H. apply andb_true_iff in H. destruct H as [H H3].
+    apply andb_true_iff in H. destruct H as [H1 H2]. rewrite H1, (IHc2 Ln H2), (IHc3 Ln H3). reflexivity.
+  - match goal with HF : Forall _ cards |- _ => induction HF as [|x r Hx _ IHr] end; cbn [forallb]; [auto|].
+    intros H. apply andb_true_iff in H. destruct H as [H1 H2]. rewrite (Hx Ln H1), (IHr H2). reflexivity.
+Qed.
+Lemma cards5_6 cards : forall Ln, cards5 Ln cards = true -> cards6 Ln cards = true.
+Proof.
+  induction cards as [|c r IH]; intros Ln H; [reflexivity|]. cbn [cards5 cards6] in *.
+  apply andb_true_iff in H. destruct H as [H1 H2].
+  assert (Ht : top6 Ln c = true) by (destruct c; cbn [top5 top6] in *; try exact H1; apply stmt5_6; exact H1).
+  rewrite Ht. apply IH, H2.
+Qed.
+Lemma in_f5_f6 M : in_f5 M = true -> in_f6 M = true.
+Proof.
+  destruct M as [subs funs imps]. cbn [in_f5 in_f6]. destruct subs; [|discriminate].
+  destruct funs as [|[name f] [|]]; try discriminate. destruct imps; [|discriminate].
+  intros H. apply andb_true_iff in H. destruct H as [H1 H2]. rewrite H1. cbn [andb].
+  apply cards5_6, H2.
+Qed.
+
 (* ------------------------------------------------------------------ the scoping rules *)
 Section Ws.
 Variable P : list fentry.
@@ -82,34 +130,139 @@ Proof.
     apply negb_true_iff in Hdot. rewrite is_empty_conv in Hne. cbn [ws yields]. rewrite (var_base_no_dot _ Hdot), Hne. split; reflexivity.
 Qed.
 
-Lemma stmt_ws c : stmt4 c = true -> forall ret decl loc up, ws P fi ret decl loc up c = Some loc.
+Lemma mem_lmem x Ln : mem x Ln = lmem x Ln.
 Proof.
-  induction c using CompilerWf.card_ind'; intros Hc; cbn [stmt4] in Hc; try discriminate Hc; intros ret decl loc up.
+  unfold mem, lmem. induction Ln as [|y r IH]; cbn [existsb find_first]; [reflexivity|].
+  destruct (str_eqb x y); [reflexivity|]. cbn [orb]. rewrite IH. destruct (find_first x r); reflexivity.
+Qed.
+
+Lemma stmt_ws Ln c : stmt5 Ln c = true -> forall ret decl up, ws P fi ret decl Ln up c = Some Ln.
+Proof.
+  induction c using CompilerWf.card_ind'; intros Hc; cbn [stmt5] in Hc; try discriminate Hc; intros ret decl up.
   - (* IfTrue / IfFalse / While *)
     destruct op; try discriminate Hc; apply andb_true_iff in Hc; destruct Hc as [He Hb];
-      destruct (expr_ws c1 He ret false loc up) as [A1 B1]; cbn [ws];
-      rewrite A1, B1, (IHc2 Hb ret false loc up); reflexivity.
+      destruct (expr_ws c1 He ret false Ln up) as [A1 B1]; cbn [ws];
+      rewrite A1, B1, (IHc2 Hb ret false up); reflexivity.
   - (* IfElse *)
     destruct op; try discriminate Hc. apply andb_true_iff in Hc. destruct Hc as [Hc Hb].
     apply andb_true_iff in Hc. destruct Hc as [He Ha].
-    destruct (expr_ws c1 He ret false loc up) as [A1 B1]. cbn [ws].
-    rewrite A1, B1, (IHc2 Ha ret false loc up), (IHc3 Hb ret false loc up). reflexivity.
+    destruct (expr_ws c1 He ret false Ln up) as [A1 B1]. cbn [ws].
+    rewrite A1, B1, (IHc2 Ha ret false up), (IHc3 Hb ret false up). reflexivity.
   - reflexivity.
   - (* SetGlobalVar *)
     apply andb_true_iff in Hc. destruct Hc as [Hne He].
-    destruct (expr_ws c He ret false loc up) as [A1 B1]. rewrite is_empty_conv in Hne. cbn [ws]. rewrite Hne.
+    destruct (expr_ws c He ret false Ln up) as [A1 B1]. rewrite is_empty_conv in Hne. cbn [ws]. rewrite Hne.
+    destruct c; try discriminate He; rewrite A1, B1; reflexivity.
+  - (* SetVar of a local *)
+    apply andb_true_iff in Hc. destruct Hc as [Hc He]. apply andb_true_iff in Hc. destruct Hc as [Hx Hm].
+    unfold var_ok in Hx. apply andb_true_iff in Hx. destruct Hx as [Hne Hdot].
+    apply negb_true_iff in Hne, Hdot. rewrite is_empty_conv in Hne.
+    destruct (expr_ws c He ret false Ln up) as [A1 B1]. cbn [ws].
+    rewrite (rsplit_no_dot _ Hdot), Hne, mem_lmem, Hm. cbn [orb].
     destruct c; try discriminate He; rewrite A1, B1; reflexivity.
   - (* Composite *)
     cbn [ws]. match goal with HF : Forall _ cards |- _ => rename HF into HFall end.
     revert Hc. induction HFall as [|x r Hx _ IHr]; intros Hc; [reflexivity|].
     cbn [forallb] in Hc. apply andb_true_iff in Hc. destruct Hc as [H1 H2].
-    rewrite (Hx H1 ret decl loc up). apply IHr, H2.
+    rewrite (Hx H1 ret decl up). apply IHr, H2.
 Qed.
 
-Lemma cards_ws cards ret loc : forallb stmt4 cards = true -> ws_seq P fi ret loc cards = true.
+Lemma top_ws Ln c : top5 Ln c = true -> forall ret, ws P fi ret true Ln [] c = Some (names_next Ln c).
 Proof.
-  induction cards as [|c r IH]; cbn [forallb ws_seq]; [reflexivity|]. intros H.
-  apply andb_true_iff in H. destruct H as [H1 H2]. rewrite (stmt_ws c H1 ret true loc []). apply IH, H2.
+  intros Hc ret.
+  assert (Hstmt : stmt5 Ln c = true -> names_next Ln c = Ln -> ws P fi ret true Ln [] c = Some (names_next Ln c)).
+  { intros H5 Hn. rewrite Hn. apply stmt_ws, H5. }
+  destruct c; try (apply Hstmt; [exact Hc | reflexivity]).
+  cbn [top5] in Hc. apply andb_true_iff in Hc. destruct Hc as [Hx He].
+  unfold var_ok in Hx. apply andb_true_iff in Hx. destruct Hx as [Hne Hdot].
+  apply negb_true_iff in Hne, Hdot. rewrite is_empty_conv in Hne.
+  destruct (expr_ws c He ret false Ln []) as [A1 B1]. cbn [ws names_next].
+  rewrite (rsplit_no_dot _ Hdot), Hne, mem_lmem. cbn [mem existsb orb]. rewrite orb_false_r.
+  destruct c; try discriminate He; rewrite A1, B1; cbn [negb]; destruct (lmem name Ln); reflexivity.
+Qed.
+
+Lemma cards_ws cards : forall ret Ln, cards5 Ln cards = true -> ws_seq P fi ret Ln cards = true.
+Proof.
+  induction cards as [|c r IH]; intros ret Ln; cbn [cards5 ws_seq]; [reflexivity|]. intros H.
+  apply andb_true_iff in H. destruct H as [H1 H2]. rewrite (top_ws Ln c H1 ret). apply IH, H2.
+Qed.
+(* F6r: the hidden locals of a Repeat (named "") are not locals of the scoping rules *)
+Definition visn (Ln : list str) : list str := filter (fun x => negb (is_empty x)) Ln.
+
+Lemma lmem_visn x Ln : is_empty x = false -> lmem x (visn Ln) = lmem x Ln.
+Proof.
+  intros Hx. unfold lmem. induction Ln as [|y r IH]; [reflexivity|]. cbn [visn filter find_first].
+  destruct y as [|y0 yr].
+  - cbn [is_empty negb]. fold (visn r). destruct x; [discriminate Hx|]. cbn [str_eqb]. 
+    destruct (find_first (n :: x) r), (find_first (n :: x) (visn r)); try reflexivity; discriminate IH.
+  - cbn [is_empty negb find_first]. fold (visn r). destruct (str_eqb x (y0 :: yr)); [reflexivity|].
+    destruct (find_first x r), (find_first x (visn r)); try reflexivity; discriminate IH.
+Qed.
+
+Lemma stmt_ws6 c : forall Ln, stmt6 Ln c = true -> forall ret decl up, ws P fi ret decl (visn Ln) up c = Some (visn Ln).
+Proof.
+  induction c using CompilerWf.card_ind'; intros Ln Hc; cbn [stmt6] in Hc; try discriminate Hc; intros ret decl up.
+  - (* IfTrue / IfFalse / While *)
+    destruct op; try discriminate Hc; apply andb_true_iff in Hc; destruct Hc as [He Hb];
+      destruct (expr_ws c1 He ret false (visn Ln) up) as [A1 B1]; cbn [ws];
+      rewrite A1, B1, (IHc2 Ln Hb ret false up); reflexivity.
+  - (* IfElse *)
+    destruct op; try discriminate Hc. apply andb_true_iff in Hc. destruct Hc as [Hc Hb].
+    apply andb_true_iff in Hc. destruct Hc as [He Ha].
+    destruct (expr_ws c1 He ret false (visn Ln) up) as [A1 B1]. cbn [ws].
+    rewrite A1, B1, (IHc2 Ln Ha ret false up), (IHc3 Ln Hb ret false up). reflexivity.
+  - reflexivity.
+  - (* SetGlobalVar *)
+    apply andb_true_iff in Hc. destruct Hc as [Hne He].
+    destruct (expr_ws c He ret false (visn Ln) up) as [A1 B1]. rewrite is_empty_conv in Hne. cbn [ws]. rewrite Hne.
+    destruct c; try discriminate He; rewrite A1, B1; reflexivity.
+  - (* SetVar of a local *)
+    apply andb_true_iff in Hc. destruct Hc as [Hc He]. apply andb_true_iff in Hc. destruct Hc as [Hx Hm].
+    unfold var_ok in Hx. apply andb_true_iff in Hx. destruct Hx as [Hne Hdot].
+    apply negb_true_iff in Hne, Hdot. rewrite is_empty_conv in Hne.
+    destruct (expr_ws c He ret false (visn Ln) up) as [A1 B1]. cbn [ws].
+    rewrite (rsplit_no_dot _ Hdot), Hne, mem_lmem, (lmem_visn _ _ Hne), Hm. cbn [orb].
+    destruct c; try discriminate He; rewrite A1, B1; reflexivity.
+  - (* Repeat *)
+    destruct i; [discriminate Hc|]. apply andb_true_iff in Hc. destruct Hc as [He Hb].
+    destruct (expr_ws c1 He ret false (visn Ln) up) as [A1 B1]. cbn [ws opt_names flat_map nodup app].
+    rewrite A1, B1. cbn [andb].
+    pose proof (IHc2 ([] :: [] :: Ln) Hb ret true up) as H. cbn [visn filter is_empty negb] in H. fold (visn Ln) in H.
+    rewrite H. reflexivity.
+  - (* Composite *)
+    cbn [ws]. match goal with HF : Forall _ cards |- _ => rename HF into HFall end.
+    revert Hc. induction HFall as [|x r Hx _ IHr]; intros Hc; [reflexivity|].
+    cbn [forallb] in Hc. apply andb_true_iff in Hc. destruct Hc as [H1 H2].
+    rewrite (Hx Ln H1 ret decl up). apply IHr, H2.
+Qed.
+
+Definition named_all (Ln : list str) : Prop := Forall (fun x => is_empty x = false) Ln.
+Lemma visn_named Ln : named_all Ln -> visn Ln = Ln.
+Proof. induction 1 as [|x r Hx _ IH]; [reflexivity|]. cbn [visn filter]. rewrite Hx. cbn [negb]. fold (visn r). rewrite IH. reflexivity. Qed.
+
+Lemma top_ws6 Ln c : named_all Ln -> top6 Ln c = true ->
+  forall ret, ws P fi ret true Ln [] c = Some (names_next Ln c) /\ named_all (names_next Ln c).
+Proof.
+  intros Hn Hc ret.
+  assert (Hstmt : stmt6 Ln c = true -> names_next Ln c = Ln ->
+                  ws P fi ret true Ln [] c = Some (names_next Ln c) /\ named_all (names_next Ln c)).
+  { intros H6 Hnx. rewrite Hnx. split; [|exact Hn]. pose proof (stmt_ws6 c Ln H6 ret true []) as H.
+    rewrite (visn_named _ Hn) in H. exact H. }
+  destruct c; try (apply Hstmt; [exact Hc | reflexivity]).
+  cbn [top6] in Hc. apply andb_true_iff in Hc. destruct Hc as [Hx He].
+  unfold var_ok in Hx. apply andb_true_iff in Hx. destruct Hx as [Hne Hdot].
+  apply negb_true_iff in Hne, Hdot. rewrite is_empty_conv in Hne.
+  destruct (expr_ws c He ret false Ln []) as [A1 B1]. cbn [ws names_next].
+  rewrite (rsplit_no_dot _ Hdot), Hne, mem_lmem. cbn [mem existsb orb]. rewrite orb_false_r.
+  split.
+  - destruct c; try discriminate He; rewrite A1, B1; cbn [negb]; destruct (lmem name Ln); reflexivity.
+  - destruct (lmem name Ln); [exact Hn | constructor; [exact Hne | exact Hn]].
+Qed.
+
+Lemma cards_ws6 cards : forall ret Ln, named_all Ln -> cards6 Ln cards = true -> ws_seq P fi ret Ln cards = true.
+Proof.
+  induction cards as [|c r IH]; intros ret Ln Hn; cbn [cards6 ws_seq]; [reflexivity|]. intros H.
+  apply andb_true_iff in H. destruct H as [H1 H2]. destruct (top_ws6 Ln c Hn H1 ret) as [A B]. rewrite A. apply IH; assumption.
 Qed.
 End Ws.
 
@@ -127,9 +280,9 @@ Proof.
   destruct H as [H1 H2]. cbn [length seq combine forallb snd]. rewrite H1, (IH H2 (S k)). reflexivity.
 Qed.
 
-Theorem in_f4_well_scoped M : in_f4 M = true -> well_scoped M = true.
+Theorem in_f6_well_scoped M : in_f6 M = true -> well_scoped M = true.
 Proof.
-  intros HM. destruct M as [subs funs imps]. cbn [in_f4] in HM.
+  intros HM. destruct M as [subs funs imps]. cbn [in_f6] in HM.
   destruct subs; [|discriminate]. destruct funs as [|[name f] [|]]; try discriminate.
   destruct imps; [|discriminate].
   apply andb_true_iff in HM. destruct HM as [HM Hcards]. apply andb_true_iff in HM. destruct HM as [Hname Hargs].
@@ -142,9 +295,13 @@ Proof.
   cbn [map fe_name]. rewrite Hnd. cbn [andb length seq combine forallb fst snd].
   rewrite (forallb_std_combine _ stdl Hstd 1). rewrite andb_true_r.
   unfold is_std, ws_function. cbn [fe_ns fe_fn orb]. rewrite Ha. cbn [nodup forallb andb Nat.eqb negb].
-  apply cards_ws, Hcards.
+  apply cards_ws6; [constructor | exact Hcards].
 Qed.
 
+Corollary in_f5_well_scoped M : in_f5 M = true -> well_scoped M = true.
+Proof. intros H. apply in_f6_well_scoped, in_f5_f6, H. Qed.
+Corollary in_f4_well_scoped M : in_f4 M = true -> well_scoped M = true.
+Proof. intros H. apply in_f5_well_scoped, in_f4_f5, H. Qed.
 Corollary in_f3_well_scoped M : in_f3 M = true -> well_scoped M = true.
 Proof. intros H. apply in_f4_well_scoped, in_f3_f4, H. Qed.
 Corollary in_f1_well_scoped M : in_f1 M = true -> well_scoped M = true.
@@ -156,5 +313,10 @@ Theorem fragments_well_scoped M :
   (in_f1 M = true -> in_f2 M = true) /\
   (in_f2 M = true -> in_f3 M = true) /\
   (in_f3 M = true -> in_f4 M = true) /\
-  (in_f4 M = true -> well_scoped M = true).
-Proof. split; [apply in_f1_f2|]. split; [apply in_f2_f3|]. split; [apply in_f3_f4 | apply in_f4_well_scoped]. Qed.
+  (in_f4 M = true -> in_f5 M = true) /\
+  (in_f5 M = true -> in_f6 M = true) /\
+  (in_f6 M = true -> well_scoped M = true).
+Proof.
+  split; [apply in_f1_f2|]. split; [apply in_f2_f3|]. split; [apply in_f3_f4|]. split; [apply in_f4_f5|].
+  split; [apply in_f5_f6 | apply in_f6_well_scoped].
+Qed.
